@@ -104,13 +104,18 @@ func loadFindings(path string) []*finding {
 	return out
 }
 
-func checkMain(repo, verif, prop, tier, replayFile string, verbose bool) int {
+func checkMain(repo, verifRoot, prop, tier, replayFile string, verbose bool) int {
 	start := time.Now()
+	verif := verifRoot
+	if out := os.Getenv("GOVC_OUT"); out != "" {
+		// selftest runs: evidence and replays go elsewhere; specs, baseline and findings are read from verifRoot
+		verif = out
+	}
 	if replayFile != "" {
 		return replayMain(repo, verif, replayFile)
 	}
 	var props map[string]*PropConfig
-	if err := loadJSON(filepath.Join(verif, "specs", "props.json"), &props); err != nil {
+	if err := loadJSON(filepath.Join(verifRoot, "specs", "props.json"), &props); err != nil {
 		fmt.Println("cannot read props.json:", err)
 		return 2
 	}
@@ -268,7 +273,7 @@ func checkMain(repo, verif, prop, tier, replayFile string, verbose bool) int {
 
 	// verdicts -----------------------------------------------------------------------------
 	var base Baseline
-	basePath := filepath.Join(verif, "baseline", prop+".json")
+	basePath := filepath.Join(verifRoot, "baseline", prop+".json")
 	haveBase := loadJSON(basePath, &base) == nil
 	if os.Getenv("GOVC_UPDATE_BASELINE") != "" {
 		nb := Baseline{Classes: map[string]bool{}}
@@ -296,7 +301,7 @@ func checkMain(repo, verif, prop, tier, replayFile string, verbose bool) int {
 	for _, n := range base.Discharged {
 		inBase[n] = true
 	}
-	findings := loadFindings(filepath.Join(verif, "known_findings.txt"))
+	findings := loadFindings(filepath.Join(verifRoot, "known_findings.txt"))
 	exit := 0
 	violations := 0
 	claimed, discharged := 0, 0
